@@ -9,6 +9,8 @@ HB = os.path.join(BUILD, "h")             # harness binaries
 TMP = os.path.join(BUILD, "tmp")          # scratch (never /tmp: registered commands must not depend on it)
 NCPU = int(os.environ.get("VERIF_JOBS", os.cpu_count() or 4))
 GUARD = "SIMGRID_VERIF"
+SCRATCH = "VERIF_REPO" in os.environ            # run against a scratch tree: outputs must not touch /verif/evidence
+OUT = BUILD if SCRATCH else VERIF               # where evidence/ and replays/ go
 SG_TARGETS = ["simgrid", "simgrid-mc", "sthread", "smpimain", "smpireplaymain"]
 
 CXXFLAGS = ["-std=c++20", "-O1", "-g0", "-fno-access-control", "-D" + GUARD, "-I" + REPO, "-I" + REPO + "/include",
@@ -150,7 +152,7 @@ class Ctx:
 def finish(ctx, level, coverage, assumptions, violations, engine=""):
     """Write evidence, print KNOWN-FINDING / VIOLATION lines, exit with the protocol's code."""
     known, _fixed = load_known(ctx.prop)
-    rdir = os.path.join(VERIF, "replays", ctx.prop)
+    rdir = os.path.join(OUT, "replays", ctx.prop)
     new, seen_known = [], {}
     for v in violations:
         hit = next((k for k in known if k[0] == v.key), None)
@@ -173,10 +175,10 @@ def finish(ctx, level, coverage, assumptions, violations, engine=""):
     ev = {"property_id": ctx.prop, "tier": ctx.tier, "seed": ctx.seed, "level": level, "coverage": coverage,
           "assumptions": assumptions, "wall_s": round(time.time() - ctx.t0, 2), "violations": len(new),
           "known_findings_seen": sorted(seen_known)}
-    os.makedirs(os.path.join(VERIF, "evidence"), exist_ok=True)
-    tmp = os.path.join(VERIF, "evidence", ".%s.%d.tmp" % (ctx.prop, os.getpid()))
+    os.makedirs(os.path.join(OUT, "evidence"), exist_ok=True)
+    tmp = os.path.join(OUT, "evidence", ".%s.%d.tmp" % (ctx.prop, os.getpid()))
     json.dump(ev, open(tmp, "w"), indent=1, default=str)
-    os.replace(tmp, os.path.join(VERIF, "evidence", ctx.prop + ".json"))
+    os.replace(tmp, os.path.join(OUT, "evidence", ctx.prop + ".json"))
     for v, p in zip(new, paths):
         print("VIOLATION property=%s replay=%s" % (ctx.prop, p))
         print("  key: %s\n  what: %s" % (v.key, v.what))
